@@ -232,4 +232,9 @@ let handle toks = match toks with
   | ["origin"; d] -> run_ops [OOrigin (Some (dec_dbl d))]
   | ["cal"] -> run_ops [OCal]
   | _ -> failwith "bad command"
-let () = run_file OSys.argv.(1) handle
+(* handle routes: `@h cmd ...` runs cmd through another handle to the same array - the model has ONE array, so the
+   handle does not matter *)
+let handle_any toks = match toks with
+  | h :: rest when OStr.length h > 0 && h.[0] = '@' -> handle rest
+  | _ -> handle toks
+let () = run_file OSys.argv.(1) handle_any
